@@ -66,7 +66,12 @@ StickyNames == <<"n1", "reminder_2", "note">>
 ProjNames  == <<"proj", "my project", "Project">>
 ProjKeys   == <<"database_type", "notes", "owner">>
 
-Maybe(seed, key, pct, pool) == IF Coin(seed, key, pct) THEN Pick(seed, key + 1, pool) ELSE ""
+\* equal twins: in one document out of seven every note that is present carries the SAME text, and notes are frequent
+\* (objects that are equal by value but must stay distinct by identity: shared caches, interned values)
+Twins(seed) == Coin(seed, 16, 14)
+Maybe(seed, key, pct, pool) ==
+  IF pool = Texts /\ Twins(seed) THEN (IF Coin(seed, key, 75) THEN Pick(seed, 17, Texts) ELSE "")
+  ELSE IF Coin(seed, key, pct) THEN Pick(seed, key + 1, pool) ELSE ""
 
 (***************************************************************************)
 (* Whole documents                                                         *)
